@@ -7,6 +7,7 @@ from engine import slicer
 from engine.core import Job, VERIF, extract_inputs
 from engine.routeb import gotocc_cpp, cbmc_argv, STD, unwindset_from_loops
 from engine.selftest import subst
+from props import builderjobs
 
 ID = "C20"
 USES_CPP = True   # adds the front-end assumption canaries (engine/frontend.py) to every run of this check
@@ -169,6 +170,8 @@ def jobs(tier, mutant=None):
         js.append(Job("LinePrinter.locked.K%d_len%d" % (K, SL), _build(K, SL, mutant), "bounded", timeout=3000, canaries=3 if K * SL > 2 else 2,
                       bound="lock, %d operations (PrintOnNewLine / Print) with strings of <= %d arbitrary bytes, unlock" % (K, SL),
                       functions=["LinePrinter::Print", "LinePrinter::PrintOrBuffer", "LinePrinter::PrintOnNewLine", "LinePrinter::SetConsoleLocked"], weight=4.0 ** K * SL))
+    # started/finished reports of the builder (modular, props/builderunit.py); the Build loop run (B3) is in the thorough tier only (it is C05's quick run)
+    js += builderjobs.select(tier, ["B1", "B2"] + (["B3"] if tier == "thorough" else []), r'\bC20\b', mutant)
     return js
 
 
@@ -184,6 +187,7 @@ MUTANTS = [
     ("unlock_forgets_buffer", _m("SetConsoleLocked", "PrintOnNewLine(output_buffer_);", "")),
     ("print_leaks_while_locked", _m("Print", "if (console_locked_) {\n    line_buffer_ = to_print;\n    line_type_ = type;\n    return;\n  }", "if (console_locked_) {\n    line_buffer_ = to_print;\n    line_type_ = type;\n  }")),
     ("pending_status_not_printed", _m("SetConsoleLocked", "if (!line_buffer_.empty()) {\n      Print(line_buffer_, line_type_);\n    }", "")),
+    ("finish_not_reported_on_failure", _m("FinishCommand", "  status_->BuildEdgeFinished(edge, start_time_millis, end_time_millis,\n                             result.status, result.output);\n\n  // The rest of this function only applies to successful commands.\n  if (!result.success()) {", "  if (result.success()) status_->BuildEdgeFinished(edge, start_time_millis, end_time_millis,\n                             result.status, result.output);\n\n  if (!result.success()) {")),
     ("nul_truncates_output", _m("PrintOnNewLine", "PrintOrBuffer(&to_print[0], to_print.size());", "PrintOrBuffer(&to_print[0], strlen(&to_print[0]));")),
 ]
 
